@@ -246,10 +246,16 @@ def _st_stripe(draw):
     kf = draw(st.booleans())
     nc = draw(st.sampled_from([384, 384, 384, 192]))
     hmode = "ver" if (not lfp and probe != "NP2.4" and nc == 384 and draw(st.integers(0, 3)) == 0) else "h"
-    mode = draw(st.sampled_from(["env", "env", "periodic", "cont"]))
+    mode = "env" if lfp else draw(st.sampled_from(["env", "env", "periodic", "cont"]))
+    env = None
+    if mode == "env":
+        c = round(draw(st.floats(0.25, 0.75)), 3)
+        if lfp:   # the stripe has to die out inside the batch: the 0.5 Hz corner makes edge transients seconds long
+            env = [c, round(draw(st.floats(0.3, 1.0)) * min(c, 1 - c) / 3.5, 4)]
+        else:
+            env = [c, round(draw(st.floats(0.025, 0.3)), 3)]
     case = {"t": "stripe", "probe": probe, "lfp": lfp, "kf": kf, "nc": nc, "hmode": hmode,
-            "comps": _st_comps(draw, lfp), "mode": mode,
-            "env": [round(draw(st.floats(0.25, 0.75)), 3), round(draw(st.floats(0.025, 0.3)), 3)] if mode == "env" else None,
+            "comps": _st_comps(draw, lfp), "mode": mode, "env": env,
             "amp_uv": draw(st.sampled_from([10.0, 50.0, 200.0, 1000.0, 2000.0])),
             "dtype": "f4" if draw(st.integers(0, 4)) == 0 else "f8",
             "kk": None if lfp else _st_kk(draw, kf),
@@ -450,6 +456,7 @@ KNOWN = {
     "fk_collection_btype": lambda case, f: f.kind == "C05.coll.fk.btype_dropped",
     "fk_collection_kfilt": lambda case, f: f.kind == "C05.coll.fk.kfilt_dropped",
     "agc_pow3_convolve": _agc_pow3,
+    "stripe_on_interpolated_channels": lambda case, f: f.kind == "C05.stripe_attenuation.interpolated",
 }
 
 
@@ -516,22 +523,28 @@ def _run_stripe(case, ctx):
     if y is ctx.CRASH or not _shape_ok(ctx, y, (nc, ns), "C05.destripe"):
         return
     ref = scipy.signal.sosfiltfilt(_sos(fs, lfp), x)
-    inside = np.flatnonzero(labels != 3) if labels is not None else np.arange(nc)
+    good = np.flatnonzero(labels == 0) if labels is not None else np.arange(nc)
+    interp = np.flatnonzero((labels == 1) | (labels == 2)) if labels is not None else np.arange(0)
     sl = slice(ns // 4, ns - ns // 4)
-    r_ref = float(np.sqrt(np.mean(ref[inside, sl] ** 2)))
+    r_ref = float(np.sqrt(np.mean(ref[good, sl] ** 2)))
     if not r_ref > 0:
         ctx.label("stripe_degenerate")
         return
-    rc = np.sqrt(np.mean(y[inside, sl] ** 2, axis=1))
-    worst = float(rc.max()) / r_ref
-    att = -20 * np.log10(max(worst, 1e-30))
-    att_all = -20 * np.log10(max(float(np.sqrt(np.mean(rc ** 2))) / r_ref, 1e-30))
     tag = "lfp" if lfp else ("kfilt" if case["kf"] else "car")
-    ctx.stat("min_stripe_att_db_worst_channel_" + tag, att)
-    ctx.stat("min_stripe_att_db_all_channels_" + tag, att_all)
-    ctx.check(att >= ATT_DB, "C05.stripe_attenuation" + (".lfp" if lfp else ""),
-              lambda: f"common-mode stripe attenuated by only {att:.1f} dB on channel {int(inside[int(np.argmax(rc))])} "
-                      f"({att_all:.1f} dB over all channels), {tag}, probe {case['probe']}")
+    for chans, name, kind in ((good, "", "C05.stripe_attenuation" + (".lfp" if lfp else "")),
+                              (interp, "interpolated_", "C05.stripe_attenuation.interpolated")):
+        if chans.size == 0:
+            continue
+        rc = np.sqrt(np.mean(y[chans][:, sl] ** 2, axis=1))
+        att = float(-20 * np.log10(max(float(rc.max()) / r_ref, 1e-30)))
+        att_all = float(-20 * np.log10(max(float(np.sqrt(np.mean(rc ** 2))) / r_ref, 1e-30)))
+        ctx.stat("min_stripe_att_db_%sworst_channel_%s" % (name, tag), att)
+        if not name:
+            ctx.stat("min_stripe_att_db_all_channels_" + tag, att_all)
+        ctx.check(att >= ATT_DB, kind,
+                  lambda: f"common-mode stripe attenuated by only {att:.1f} dB on {name.replace('_', ' ')}channel "
+                          f"{int(chans[int(np.argmax(rc))])} ({att_all:.1f} dB over all such channels), {tag}, probe "
+                          f"{case['probe']}")
     if labels is not None:
         _check_outside(ctx, y, ref, shifts, labels)
 
